@@ -158,7 +158,9 @@ class Trace:
         self.lines.append('X')
         self.expected.append((label, out))
         if self.cfg.get('direct_every', True):
-            direct_c01(self, s)
+            # after a batch only the rows just appended can be new offenders; everything is re-checked after a bound
+            # insertion, the end of exploration, a toggle or a resume
+            direct_c01(self, s, only_last=self.cfg['n_batch'] + 64 if label == 'add_samples' else None)
         # numeric snapshot
         with np.errstate(all='ignore'):
             try:
@@ -505,7 +507,7 @@ def run_traced(cfg, max_batches=400):
     try:
         s = build_sampler(nautilus, cfg, tr, prob, filepath=path, resume=False)
         tr.lines.append('N %d' % cfg['n_batch'])
-        est_batches = max_batches if cfg['n_batch'] >= 7 else 4 * max_batches
+        est_batches = cfg.get('max_batches') or (max_batches if cfg['n_batch'] >= 7 else 4 * max_batches)
         toggle_at = sorted(int(x) for x in rng.integers(1, 60, size=cfg.get('toggles', 0)))
         resume_at = sorted(int(x) for x in rng.integers(2, 60, size=cfg.get('resumes', 0)))
         k = 0
@@ -680,12 +682,14 @@ def replay_through_model(tr, tmpdir):
 # ---------------------------------------------------------------------------------------------------------------
 # direct predicates of the properties on the final / intermediate implementation state
 # ---------------------------------------------------------------------------------------------------------------
-def direct_c01(tr, s):
+def direct_c01(tr, s, only_last=None):
     """each stored point in the cube, in its own bound, outside every later bound, association = own shell"""
     for i, P in enumerate(s.points):
         if len(P) == 0:
             continue
         P = np.asarray(P)
+        if only_last is not None:
+            P = P[-only_last:]
         if not np.all((P >= 0) & (P < 1)):
             tr.fail('C01', 'shell %d stores a point outside the unit hypercube' % i)
         with np.errstate(all='ignore'):
